@@ -360,6 +360,17 @@ func c09CheckFormat(c *Ctx, src []byte, path, origin string, strictComments bool
 
 // c09Class names the known special class a program falls in (used in violation keys)
 func c09Class(a *syntax.Ast) string {
+	// first: the only known class whose output does not re-parse (a program can hold a huge
+	// resource value AND e.g. an invalid-UTF-8 string)
+	for _, st := range a.Stages {
+		if r := st.Resources; r != nil {
+			for _, v := range []float32{r.Threads, r.MemGB, r.VMemGB} {
+				if v > 1e12 || v < -1e12 || v != v {
+					return "huge-resource"
+				}
+			}
+		}
+	}
 	if c09HasInvalidString(a) {
 		return "invalid-utf8-string"
 	}
@@ -407,15 +418,6 @@ func c09Class(a *syntax.Ast) string {
 	}
 	if negZero {
 		return "negative-zero"
-	}
-	for _, st := range a.Stages {
-		if r := st.Resources; r != nil {
-			for _, v := range []float32{r.Threads, r.MemGB, r.VMemGB} {
-				if v > 1e12 || v < -1e12 || v != v {
-					return "huge-resource"
-				}
-			}
-		}
 	}
 	return "other"
 }
